@@ -14,7 +14,7 @@ case "$FLAV" in
   plain) CFLAGS="-O1 $COMMON" ;;
   asan)  CFLAGS="-O1 -fsanitize=address,undefined -fno-sanitize-recover=undefined -fno-omit-frame-pointer $COMMON" ;;
   tsan)  CFLAGS="-O1 -fsanitize=thread $COMMON" ;;
-  fault) CFLAGS="-O1 $COMMON -include $HERE/vf_alloc.h" ;;
+  fault) CFLAGS="-O1 -fsanitize=address,undefined -fno-sanitize-recover=undefined -fno-omit-frame-pointer $COMMON -include $HERE/vf_alloc.h" ;;
   *) echo "unknown flavour $FLAV" >&2; exit 2 ;;
 esac
 echo "$CFLAGS" > "$OUT/flags.new"
